@@ -90,6 +90,116 @@ def worker(unit, emit):
             emit.count('block_payloads', n)
 
 
+B58A = '123456789ABCDEFGHJKLMNPQRSTUVWXYZabcdefghijkmnopqrstuvwxyz'
+B32A = 'qpzry9x8gf2tvdw0s3jn54khce6mua7l'
+
+
+def b58check(version, payload20):
+    import hashlib
+    raw = bytes([version]) + payload20
+    raw += hashlib.sha256(hashlib.sha256(raw).digest()).digest()[:4]
+    n = int.from_bytes(raw, 'big')
+    out = ''
+    while n:
+        n, r = divmod(n, 58)
+        out = B58A[r] + out
+    return '1' * (len(raw) - len(raw.lstrip(b'\0'))) + out
+
+
+def bech32_polymod(values):
+    gen = [0x3b6a57b2, 0x26508e6d, 0x1ea119fa, 0x3d4233dd, 0x2a1462b3]
+    chk = 1
+    for v in values:
+        b = chk >> 25
+        chk = (chk & 0x1ffffff) << 5 ^ v
+        for i in range(5):
+            chk ^= gen[i] if ((b >> i) & 1) else 0
+    return chk
+
+
+def bech32_addr(version, data5):
+    """'bc1' + version + data symbols + checksum (BIP 173), for any list of 5-bit symbols."""
+    hrp = [3, 3, 0, 2, 3]
+    vals = [version] + list(data5)
+    pm = bech32_polymod(hrp + vals + [0] * 6) ^ 1
+    chk = [(pm >> 5 * (5 - i)) & 31 for i in range(6)]
+    return 'bc1' + ''.join(B32A[v] for v in vals + chk)
+
+
+def to5(program):
+    acc = bits = 0
+    out = []
+    for b in program:
+        acc = (acc << 8) | b
+        bits += 8
+        while bits >= 5:
+            bits -= 5
+            out.append((acc >> bits) & 31)
+    if bits:
+        out.append((acc << (5 - bits)) & 31)
+    return out
+
+
+def bitcoin_worker(unit, emit):
+    _, items, p = unit
+    lib.load_stdnum()
+    from stdnum import bitcoin
+    for x, how in items:
+        r = lib.call(bitcoin.validate, x)
+        emit.trace([{'x': lib.cps(x), 'r': sl(r)}], {'m': 'bitcoin', 'w': x, 'how': how, 'site': r['site'], 'outcome': r['cls'] or 'accepted'})
+        emit.count('bitcoin')
+
+
+def bitcoin_inputs(rnd, quick):
+    lib.load_stdnum()
+    from stdnum import bitcoin
+    items = []
+    corp = [c for c in lib.corpus('bitcoin', bitcoin) if c.isascii()]
+    n_addr = 12 if quick else 200
+    addrs = list(corp)
+    for _ in range(n_addr):
+        addrs.append(b58check(rnd.choice([0, 5]), bytes(rnd.randrange(256) for _ in range(20))))
+    addrs.append(b58check(0, bytes(20)))
+    addrs.append(b58check(0, bytes([0, 0, 0]) + bytes(rnd.randrange(256) for _ in range(17))))
+    addrs.append(b58check(111, bytes(20)))                    # testnet version byte: starts with m/n
+    for a in addrs:
+        items.append((a, 'address'))
+    for a in addrs[:len(addrs) if not quick else 10]:
+        if a[0] in '13':
+            for _ in range(4 if quick else 12):
+                i = rnd.randrange(len(a))
+                items.append((a[:i] + rnd.choice(B58A + '0OIl') + a[i + 1:], 'base58 edit@%d' % i))
+            items.append((a[:-1], 'truncate'))
+            items.append((a + '1', 'extend'))
+            items.append((' ' + a + ' ', 'padded'))
+            items.append((a[:5] + ' ' + a[5:], 'inner space'))
+            items.append((a.upper(), 'upper'))
+    # bech32: every witness version x program lengths, padding edge cases
+    for ver in range(0, 18):
+        for plen in (1, 2, 3, 19, 20, 21, 32, 33, 39, 40, 41):
+            if quick and rnd.random() < 0.5:
+                continue
+            prog = bytes(rnd.randrange(256) for _ in range(plen))
+            d5 = to5(prog)
+            if ver < 32:
+                items.append((bech32_addr(ver, d5), 'bech32 v%d program %d bytes' % (ver, plen)))
+        for nsym in (1, 9, 17, 25, 33, 8, 16, 40):            # a whole spare zero symbol / non-zero padding
+            d5 = [rnd.randrange(32) for _ in range(nsym - 1)] + [0]
+            items.append((bech32_addr(ver % 17, d5), 'bech32 %d symbols, last symbol zero' % nsym))
+            d5b = [rnd.randrange(32) for _ in range(nsym - 1)] + [rnd.randrange(1, 32)]
+            items.append((bech32_addr(ver % 17, d5b), 'bech32 %d symbols, last symbol non-zero' % nsym))
+    bs = [x for x, h in items if x.startswith('bc1')]
+    for a in rnd.sample(bs, min(len(bs), 30 if quick else 300)):
+        i = rnd.randrange(3, len(a))
+        items.append((a[:i] + rnd.choice(B32A + 'bio1') + a[i + 1:], 'bech32 edit@%d' % i))
+        items.append((a.upper(), 'bech32 upper'))
+        items.append((a[:6] + a[6:].upper(), 'bech32 mixed case'))
+        items.append((a[:10] + ' ' + a[10:], 'bech32 inner space'))
+    for x in ('', '1', '3', 'bc1', 'bc1q', '2NEWaddress', 'tb1qw508d6qejxtdg4y5r3zarvary0c5xw7kxpjzsx', 'BC1', '1' * 34, '3' * 34, 'bc1' + 'q' * 87, 'bc1' + 'q' * 88):
+        items.append((x, 'degenerate'))
+    return items
+
+
 def main():
     chk = run.Check(PROP)
     quick = chk.tier == 'quick'
@@ -126,6 +236,14 @@ def main():
     extra = run.merge_extra(shards)
     rej = chk.validate('Trace_Formats', shards, env={'TABLE_FILE': tfile}, own_clauses={'A1', 'A2', 'B1'}, heap='3g')
     chk.report(rej)
+    # ---- Bitcoin (Base58Check with SHA-256 in TLA+, Bech32)
+    items = bitcoin_inputs(rnd, quick)
+    bunits = [('bitcoin', items[i::16], p) for i in range(16)]
+    bsh = chk.drive(bunits, bitcoin_worker)
+    extra_b = run.merge_extra(bsh)
+    rej = chk.validate('Trace_Bitcoin', bsh, own_clauses={'A1', 'A2'}, heap='3g', label='bitcoin')
+    chk.report(rej)
+    extra['val'] = extra.get('val', 0) + extra_b.get('bitcoin', 0)
     chk.assumptions += ['IBAN is compared with check_country=False (the national layer is C09); inputs are ASCII',
                         'country code tables of ISIN and ISRC are taken from the repository (given the same registry tables)']
     return chk.finish(samples=first_meta(shards), distinct_nontrivial=extra.get('val', 0) + extra.get('block_payloads', 0),
@@ -133,7 +251,7 @@ def main():
                       rule='per format: corpus presentations, every single-character replacement at every position over 0-9A-Z, deletions, insertions, '
                            'adjacent swaps, hostile ASCII characters appended/prepended/inserted, case and padding variants, random strings at and '
                            'around the format lengths; block digests of the complete ISSN / IMO / EAN-8 payload spaces (sampled in quick)',
-                      extra={'formats': sorted(FORMATS), 'validate_events': extra.get('val', 0), 'block_payloads': extra.get('block_payloads', 0)})
+                      extra={'formats': sorted(FORMATS) + ['bitcoin'], 'validate_events': extra.get('val', 0), 'block_payloads': extra.get('block_payloads', 0)})
 
 
 if __name__ == '__main__':
